@@ -16,7 +16,15 @@ pub enum El {
     Mod { mods: Vec<u8>, keys: Vec<u8>, group: bool },
     /// keys that must all be down together, in any order
     Ov(Vec<u8>),
+    /// a bare modifier key (index into `BARE`) listed like any other key: `(lsft a b)`
+    Bare(u8),
 }
+
+/// bare modifier keys that can be sequence members: (name, modifier class, right-hand twin of a left key).
+/// Modifier classes: 0 = shift, 1 = ctrl, 2 = alt (as in `MODS`), 3 = meta, 4 = altgr.
+pub const BARE: [(&str, u8, bool); 8] = [("lsft", 0, false), ("lctl", 1, false), ("lalt", 2, false), ("lmet", 3, false), ("ralt", 4, false), ("rsft", 0, true), ("rctl", 1, true), ("rmet", 3, true)];
+/// number of entries of `BARE` that are not right-hand twins
+pub const N_BARE_LEFT: usize = 5;
 
 impl El {
     pub fn text(&self) -> String {
@@ -31,6 +39,7 @@ impl El {
                 }
             }
             El::Ov(ks) => format!("O-({})", ks.iter().map(|k| ALPHA[*k as usize]).collect::<Vec<_>>().join(" ")),
+            El::Bare(m) => BARE[*m as usize].0.to_string(),
         }
     }
     fn n_tokens(&self) -> usize {
@@ -38,6 +47,7 @@ impl El {
             El::Plain(_) => 1,
             El::Mod { mods, keys, .. } => mods.len() + keys.len(),
             El::Ov(ks) => ks.len(),
+            El::Bare(_) => 1,
         }
     }
 }
@@ -93,6 +103,8 @@ fn el_tokens(e: &El) -> Vec<Tok> {
             v
         }
         El::Ov(ks) => ks.iter().map(|k| Tok { key: ALPHA[*k as usize].into(), mods: vec![] }).collect(),
+        // as defined, a bare modifier key is just a key: no modifier is "held around" it
+        El::Bare(m) => vec![Tok { key: BARE[*m as usize].0.into(), mods: vec![] }],
     }
 }
 
@@ -106,6 +118,11 @@ pub fn user_steps(ord: &[El], hold_through: bool) -> Vec<(bool, String)> {
         match e {
             El::Plain(k) => {
                 let n = ALPHA[*k as usize].to_string();
+                v.push((true, n.clone()));
+                v.push((false, n));
+            }
+            El::Bare(m) => {
+                let n = BARE[*m as usize].0.to_string();
                 v.push((true, n.clone()));
                 v.push((false, n));
             }
@@ -152,6 +169,7 @@ fn el_uses_any(e: &El, ks: &[u8]) -> bool {
         El::Plain(k) => ks.contains(k),
         El::Mod { keys, .. } => keys.iter().any(|k| ks.contains(k)),
         El::Ov(o) => o.iter().any(|k| ks.contains(k)),
+        El::Bare(_) => false,
     }
 }
 
@@ -360,6 +378,7 @@ impl Table {
                         El::Plain(_) => "p".to_string(),
                         El::Mod { mods, keys, group } => format!("m{}{}{}", mods.len(), keys.len(), if *group { "g" } else { "" }),
                         El::Ov(k) => format!("o{}", k.len()),
+                        El::Bare(m) => (if BARE[*m as usize].2 { "R" } else { "B" }).to_string(),
                     })
                     .collect::<Vec<_>>()
                     .join("")
@@ -739,5 +758,455 @@ pub fn fixed_tables() -> Vec<Table> {
         t(vec![vec![p("a")], vec![p("a"), p("b")]]),
         t(vec![vec![o(&["a", "b"])], vec![o(&["b", "a"]), p("c")]]),
         t(vec![vec![sg(&["a"])], vec![sg(&["a", "b"])]]),
+    ]
+}
+
+// ---------------------------------------------------------------- modifier family
+//
+// Tables whose sequences list bare modifier keys as ordinary members, `(lsft a b)`, next to
+// chorded members, typed with the modifier tapped or kept down, and with an unrelated modifier
+// still down while the first key(s) are typed. The model is the matching rule of the guide's
+// `sequence-backtrack-modcancel` section (and the design note it links to): a press is seen with
+// the modifiers that are down at that moment; with `yes` (the default) a press that does not match
+// as seen is tried again without modifiers; with `no` it is not.
+
+#[derive(Clone, Debug, PartialEq, Eq)]
+pub struct Plan {
+    /// per element; for a bare modifier: over how many following elements it stays down
+    /// (0 = tapped, usize::MAX = until the whole sequence has been typed); for a chorded member:
+    /// over how many following elements its modifiers are released late
+    pub hold: Vec<usize>,
+    /// unrelated modifier (index into `BARE`) pressed before the leader and released right after
+    /// this many presses of the sequence (usize::MAX = after everything)
+    pub linger: Option<(u8, usize)>,
+}
+
+pub struct Typing {
+    /// key pressed before the leader
+    pub pre: Option<String>,
+    pub steps: Vec<(bool, String)>,
+    /// the presses of `steps` as a matcher can see them
+    toks: Vec<Tok>,
+    pub any_bare_held: bool,
+    pub any_chord_mod_late: bool,
+}
+
+fn bare_class(name: &str) -> Option<u8> {
+    BARE.iter().find(|b| b.0 == name).map(|b| b.1)
+}
+
+fn el_presses(e: &El) -> Vec<String> {
+    match e {
+        El::Plain(k) => vec![ALPHA[*k as usize].to_string()],
+        El::Bare(m) => vec![BARE[*m as usize].0.to_string()],
+        El::Mod { mods, keys, .. } => mods.iter().map(|m| MODS[*m as usize].1.to_string()).chain(keys.iter().map(|k| ALPHA[*k as usize].to_string())).collect(),
+        El::Ov(ks) => ks.iter().map(|k| ALPHA[*k as usize].to_string()).collect(),
+    }
+}
+
+pub fn plan_typing(els: &[El], plan: &Plan) -> Typing {
+    let mut steps: Vec<(bool, String)> = vec![];
+    // bare modifiers that are being kept down: (name, index of the last element they stay down over)
+    let mut down: Vec<(String, usize)> = vec![];
+    let mut any_bare_held = false;
+    let mut any_chord_mod_late = false;
+    for (i, e) in els.iter().enumerate() {
+        let needs = el_presses(e);
+        // a key cannot be pressed while it is down
+        let mut j = 0;
+        while j < down.len() {
+            if needs.contains(&down[j].0) {
+                steps.push((false, down.remove(j).0));
+            } else {
+                j += 1;
+            }
+        }
+        match e {
+            El::Bare(m) => {
+                let n = BARE[*m as usize].0.to_string();
+                steps.push((true, n.clone()));
+                let ext = plan.hold.get(i).copied().unwrap_or(0);
+                if ext == 0 || i + 1 == els.len() {
+                    steps.push((false, n));
+                } else {
+                    any_bare_held = true;
+                    down.push((n, i.saturating_add(ext)));
+                }
+            }
+            El::Mod { mods, .. } if plan.hold.get(i).copied().unwrap_or(0) > 0 && i + 1 < els.len() => {
+                let mut st = user_steps(std::slice::from_ref(e), false);
+                st.truncate(st.len() - mods.len());
+                steps.extend(st);
+                any_chord_mod_late = true;
+                for m in mods {
+                    down.push((MODS[*m as usize].1.to_string(), i.saturating_add(plan.hold[i])));
+                }
+            }
+            other => steps.extend(user_steps(std::slice::from_ref(other), false)),
+        }
+        let mut j = down.len();
+        while j > 0 {
+            j -= 1;
+            if down[j].1 <= i {
+                steps.push((false, down.remove(j).0));
+            }
+        }
+    }
+    for (n, _) in down.into_iter().rev() {
+        steps.push((false, n));
+    }
+    let mut pre = None;
+    if let Some((u, after)) = plan.linger {
+        let name = BARE[u as usize].0.to_string();
+        let mut np = 0usize;
+        let mut at = steps.len();
+        for (i, s) in steps.iter().enumerate() {
+            if s.0 {
+                np += 1;
+                if np == after {
+                    at = i + 1;
+                    break;
+                }
+            }
+        }
+        steps.insert(at, (false, name.clone()));
+        pre = Some(name);
+    }
+    // what a matcher can see: every press with the modifier classes that are down (a modifier key
+    // counts itself)
+    let mut classes: Vec<u8> = vec![];
+    if let Some(c) = pre.as_deref().and_then(bare_class) {
+        classes.push(c);
+    }
+    let mut toks = vec![];
+    for (is_press, key) in &steps {
+        let c = bare_class(key);
+        if *is_press {
+            if let Some(c) = c {
+                classes.push(c);
+            }
+            let mut mods = classes.clone();
+            mods.sort();
+            mods.dedup();
+            toks.push(Tok { key: key.clone(), mods });
+        } else if let Some(c) = c {
+            if let Some(p) = classes.iter().position(|x| *x == c) {
+                classes.remove(p);
+            }
+        }
+    }
+    Typing { pre, steps, toks, any_bare_held, any_chord_mod_late }
+}
+
+#[derive(Clone, Copy, Debug, PartialEq, Eq)]
+pub enum Verdict {
+    /// the typed presses match the sequence and nothing else: its virtual key is tapped once
+    Fires,
+    /// the typed presses match no sequence (and no part of them does): no virtual key
+    Unmatchable,
+    /// not judged; the reason is counted
+    Skip(&'static str),
+}
+
+fn tok_match(def: &Tok, typed: &Tok, modcancel: bool) -> bool {
+    def.key == typed.key && (def.mods == typed.mods || (modcancel && def.mods.is_empty()))
+}
+
+fn def_toks(q: &Seq) -> Vec<Tok> {
+    q.els.iter().flat_map(el_tokens).collect()
+}
+
+impl Table {
+    pub fn has_bare_members(&self) -> bool {
+        self.seqs.iter().any(|q| q.els.iter().any(|e| matches!(e, El::Bare(_))))
+    }
+    pub fn has_overlap_groups(&self) -> bool {
+        self.seqs.iter().any(|q| q.els.iter().any(|e| matches!(e, El::Ov(_))))
+    }
+    /// does the sequence list a right-hand modifier whose presses are reported as the left-hand key?
+    pub fn has_right_hand_bare(&self, si: usize) -> bool {
+        self.seqs[si].els.iter().any(|e| matches!(e, El::Bare(m) if BARE[*m as usize].2))
+    }
+    /// modifier classes the sequence uses in any way
+    pub fn classes_used(&self, si: usize) -> Vec<u8> {
+        let mut v = vec![];
+        for e in &self.seqs[si].els {
+            match e {
+                El::Bare(m) => v.push(BARE[*m as usize].1),
+                El::Mod { mods, .. } => v.extend(mods.iter().copied()),
+                _ => {}
+            }
+        }
+        v.sort();
+        v.dedup();
+        v
+    }
+    /// some sequence begins with this key (as a bare member or as the modifier of a chord)
+    pub fn some_seq_begins_with_key(&self, name: &str) -> bool {
+        self.seqs.iter().any(|q| def_toks(q).first().map(|t| t.key == name).unwrap_or(false))
+    }
+
+    /// What must typing `ty` (a typing of sequence `si`) do, by the documented matching rule?
+    /// Judged only where the rule decides it whatever the order in which alternatives are tried.
+    pub fn verdict(&self, si: usize, ty: &Typing, modcancel: bool) -> Verdict {
+        let t = &ty.toks;
+        let all: Vec<Vec<Tok>> = self.seqs.iter().map(def_toks).collect();
+        let covers = |d: &[Tok], from: usize, n: usize, mc: bool| -> bool { (0..n).all(|i| tok_match(&d[i], &t[from + i], mc)) };
+        for (x, d) in all.iter().enumerate() {
+            // another sequence could (with modifiers cancelled) complete on these presses, or part of
+            // them (the matcher may drop keys from the front), or swallow them as its beginning
+            for from in 0..t.len() {
+                if x == si && from == 0 {
+                    continue;
+                }
+                if d.len() <= t.len() - from && covers(d, from, d.len(), true) {
+                    return Verdict::Skip(if from == 0 { "ambiguous_other_seq_matches" } else { "ambiguous_part_of_typing_matches" });
+                }
+            }
+            if x != si && d.len() > t.len() && covers(d, 0, t.len(), true) {
+                return Verdict::Skip("ambiguous_typing_begins_other_seq");
+            }
+        }
+        let d = &all[si];
+        if d.len() != t.len() || !covers(d, 0, d.len(), modcancel) {
+            return Verdict::Unmatchable;
+        }
+        // a press that must be read without its modifiers while a later press must be read with
+        // them: decided only if nothing in the table could take the earlier press as seen
+        let kept_after = |q: usize| (q + 1..t.len()).any(|p| !t[p].mods.is_empty() && d[p].mods == t[p].mods);
+        for q in 0..t.len() {
+            if !t[q].mods.is_empty() && d[q].mods.is_empty() && kept_after(q) && all.iter().any(|x| x.len() > q && x[q] == t[q]) {
+                return Verdict::Skip("reading_order_dependent");
+            }
+        }
+        Verdict::Fires
+    }
+}
+
+fn gen_mf_el(rng: &mut Rng, first: bool) -> El {
+    let k = |rng: &mut Rng| rng.below(ALPHA.len() as u64) as u8;
+    match rng.below(100) {
+        0..=44 => El::Plain(k(rng)),
+        x if x < if first { 80 } else { 65 } => {
+            // mostly the usual left-hand keys; sometimes altgr or a right-hand twin
+            let m = match rng.below(20) {
+                0..=6 => 0,
+                7..=11 => 1,
+                12..=13 => 2,
+                14..=15 => 3,
+                16..=18 => 4,
+                _ => 5 + rng.below(3) as u8,
+            };
+            El::Bare(m)
+        }
+        _ => {
+            let nm = if rng.chance(1, 5) { 3 } else { 2 };
+            let m = rng.below(nm) as u8;
+            let mut mods = vec![m];
+            if rng.chance(1, 8) {
+                let m2 = rng.below(3) as u8;
+                if m2 != m {
+                    mods.push(m2);
+                }
+            }
+            if rng.chance(2, 5) {
+                let n = 2 + rng.usize(2);
+                El::Mod { mods: vec![m], keys: (0..n).map(|_| k(rng)).collect(), group: true }
+            } else {
+                El::Mod { mods, keys: vec![k(rng)], group: false }
+            }
+        }
+    }
+}
+
+fn gen_mf_seq(rng: &mut Rng) -> Seq {
+    let n = 1 + rng.usize(4);
+    Seq { els: (0..n).map(|i| gen_mf_el(rng, i == 0)).collect() }
+}
+
+/// a relative of `base`: chorded <-> bare spelling of the same presses, a modifier put in front, ...
+fn derive_mf(rng: &mut Rng, base: &Seq) -> Seq {
+    let mut els: Vec<El> = vec![];
+    match rng.below(6) {
+        0 => {
+            // chords respelled with the bare modifier key: S-(a b) -> lsft a b
+            for e in &base.els {
+                match e {
+                    El::Mod { mods, keys, .. } => {
+                        els.extend(mods.iter().map(|m| El::Bare(*m)));
+                        els.extend(keys.iter().map(|k| El::Plain(*k)));
+                    }
+                    o => els.push(o.clone()),
+                }
+            }
+            if els == base.els {
+                els.push(gen_mf_el(rng, false));
+            }
+        }
+        1 => {
+            // bare modifier + following plain keys respelled as a chord: lsft a b -> S-(a b) / S-a b
+            let mut i = 0;
+            while i < base.els.len() {
+                match (&base.els[i], base.els.get(i + 1)) {
+                    (El::Bare(m), Some(El::Plain(k))) if (*m as usize) < MODS.len() => {
+                        let mut keys = vec![*k];
+                        i += 2;
+                        if rng.coin() {
+                            while let Some(El::Plain(k2)) = base.els.get(i) {
+                                keys.push(*k2);
+                                i += 1;
+                            }
+                        }
+                        let group = keys.len() > 1;
+                        els.push(El::Mod { mods: vec![*m], keys, group });
+                    }
+                    (o, _) => {
+                        els.push(o.clone());
+                        i += 1;
+                    }
+                }
+            }
+            if els == base.els {
+                els.insert(0, El::Bare(rng.below(N_BARE_LEFT as u64) as u8));
+            }
+        }
+        2 => {
+            // a bare modifier put in front
+            els = base.els.clone();
+            els.insert(0, El::Bare(rng.below(N_BARE_LEFT as u64) as u8));
+        }
+        3 => {
+            // same beginning, different end
+            els = base.els.clone();
+            els.pop();
+            els.push(gen_mf_el(rng, els.is_empty()));
+        }
+        4 => {
+            // extension
+            els = base.els.clone();
+            els.push(gen_mf_el(rng, false));
+        }
+        _ => {
+            // the modifiers dropped: the same keys, plain
+            for e in &base.els {
+                match e {
+                    El::Mod { keys, .. } => els.extend(keys.iter().map(|k| El::Plain(*k))),
+                    El::Bare(_) => {}
+                    o => els.push(o.clone()),
+                }
+            }
+            if els.is_empty() || els == base.els {
+                els.push(gen_mf_el(rng, els.is_empty()));
+            }
+        }
+    }
+    els.truncate(5);
+    Seq { els }
+}
+
+pub fn gen_mf_table(rng: &mut Rng) -> Table {
+    let n = 1 + rng.usize(4);
+    let mut seqs: Vec<Seq> = vec![gen_mf_seq(rng)];
+    while seqs.len() < n {
+        if rng.chance(2, 5) {
+            let b = rng.usize(seqs.len());
+            let d = derive_mf(rng, &seqs[b].clone());
+            seqs.push(d);
+        } else {
+            seqs.push(gen_mf_seq(rng));
+        }
+    }
+    if rng.coin() {
+        rng.shuffle(&mut seqs);
+    }
+    Table { seqs }
+}
+
+/// Typings of one sequence: canonical; every bare modifier kept down to the end; single bare
+/// modifiers kept down over the next element(s); the modifier of a chorded member released only
+/// after the next member; an unrelated modifier still down while the first key / the first keys /
+/// everything is typed; both together.
+pub fn mf_plans(table: &Table, si: usize, rng: &mut Rng) -> Vec<Plan> {
+    let els = &table.seqs[si].els;
+    let n = els.len();
+    let tap = vec![0usize; n];
+    let mut v = vec![Plan { hold: tap.clone(), linger: None }];
+    let bare_at: Vec<usize> = (0..n).filter(|i| matches!(els[*i], El::Bare(_))).collect();
+    let mut all_held = None;
+    if !bare_at.is_empty() {
+        let mut h = tap.clone();
+        for i in &bare_at {
+            h[*i] = usize::MAX;
+        }
+        all_held = Some(h.clone());
+        v.push(Plan { hold: h, linger: None });
+        for _ in 0..2 {
+            let mut h = tap.clone();
+            h[*rng.pick(&bare_at)] = 1 + rng.usize(2);
+            v.push(Plan { hold: h, linger: None });
+        }
+    }
+    let chord_at: Vec<usize> = (0..n.saturating_sub(1)).filter(|i| matches!(els[*i], El::Mod { .. })).collect();
+    if !chord_at.is_empty() {
+        let mut h = tap.clone();
+        h[*rng.pick(&chord_at)] = 1;
+        v.push(Plan { hold: h, linger: None });
+    }
+    let used = table.classes_used(si);
+    let mut free: Vec<u8> = (0..N_BARE_LEFT as u8).filter(|u| !used.contains(&BARE[*u as usize].1)).collect();
+    rng.shuffle(&mut free);
+    let n_presses: usize = els.iter().map(|e| e.n_tokens()).sum();
+    if let Some(u) = free.first().copied() {
+        v.push(Plan { hold: tap.clone(), linger: Some((u, 1)) });
+        v.push(Plan { hold: tap.clone(), linger: Some((u, usize::MAX)) });
+        if let Some(h) = all_held {
+            v.push(Plan { hold: h, linger: Some((u, 1)) });
+        }
+    }
+    if let Some(u) = free.get(1).copied() {
+        v.push(Plan { hold: tap.clone(), linger: Some((u, 1 + rng.usize(n_presses.max(1)))) });
+    }
+    let mut out: Vec<Plan> = vec![];
+    let mut seen: Vec<(Option<String>, Vec<(bool, String)>)> = vec![];
+    for p in v {
+        let ty = plan_typing(els, &p);
+        let key = (ty.pre, ty.steps);
+        if !seen.contains(&key) {
+            seen.push(key);
+            out.push(p);
+        }
+    }
+    out
+}
+
+fn b(name: &str) -> El {
+    El::Bare(BARE.iter().position(|x| x.0 == name).expect("bare") as u8)
+}
+fn ch(m: u8, ks: &[&str]) -> El {
+    El::Mod { mods: vec![m], keys: ks.iter().map(|k| ALPHA.iter().position(|a| a == k).expect("alpha") as u8).collect(), group: ks.len() > 1 }
+}
+
+/// modifier-family tables typed under all (mode, leader) combinations and all three settings of
+/// sequence-backtrack-modcancel for every seed
+pub fn mf_fixed_tables() -> Vec<Table> {
+    vec![
+        // the guide's example for sequence-backtrack-modcancel
+        t(vec![vec![b("lsft"), p("a"), p("b")], vec![sg(&["c", "d"])]]),
+        t(vec![vec![b("lsft"), p("a"), p("b")]]),
+        t(vec![vec![b("lctl"), p("a")], vec![ch(1, &["b"]), p("c")]]),
+        t(vec![vec![p("a"), b("lsft"), p("b")], vec![sg(&["a"]), p("b")]]),
+        // nothing modified in the table: only the unrelated-modifier typings differ from the plain family
+        t(vec![vec![p("a"), p("b")], vec![p("c")]]),
+        t(vec![vec![p("a"), p("b")], vec![sg(&["a"]), p("c")], vec![ch(1, &["b", "a"])]]),
+        // a later press read as seen after an earlier one read without modifiers
+        t(vec![vec![b("lsft"), p("a"), sg(&["b"])], vec![p("a"), ch(1, &["b"])]]),
+        t(vec![vec![b("lsft"), b("lctl"), p("a")], vec![El::Mod { mods: vec![1, 0], keys: vec![1], group: false }]]),
+        t(vec![vec![b("lmet"), p("a")], vec![p("a"), b("lmet")], vec![b("lalt"), b("lalt")]]),
+        t(vec![vec![b("ralt"), p("f")], vec![b("lalt"), p("f")]]),
+        // the same presses spelled both ways
+        t(vec![vec![b("lsft"), p("a"), p("b")], vec![sg(&["a", "b"])], vec![sg(&["a"]), p("c")]]),
+        // right-hand twins as members
+        t(vec![vec![b("rctl"), p("e")], vec![p("a"), b("rsft")]]),
+        t(vec![vec![b("rsft"), p("a")], vec![b("lsft"), p("a")]]),
     ]
 }
